@@ -32,6 +32,7 @@ def plan(tier, seed):
 
 
 _LAST = {}
+_SHARED_LL = [0.0, 0.0]
 
 
 def gen_call(rnd, a5, gen):
@@ -102,7 +103,13 @@ def gen_call(rnd, a5, gen):
 def execute(a5, call, ctx, fresh_mod):
     """runs the call in this process; returns canonical outcome; checks argument immutability; scrambles returned lists"""
     f, a = call
-    args = [tuple(a[0]), a[1]] if f == 'lonlat_to_cell' else copy.deepcopy(a)
+    if f == 'lonlat_to_cell' and (hash(repr(a)) % 3 == 0):
+        # a caller that keeps ONE mutable [lon, lat] list and refills it for every lookup
+        _SHARED_LL[0], _SHARED_LL[1] = a[0][0], a[0][1]
+        args = [_SHARED_LL, a[1]]
+        ctx.count('lookups_through_a_reused_list')
+    else:
+        args = [tuple(a[0]), a[1]] if f == 'lonlat_to_cell' else copy.deepcopy(a)
     snap = copy.deepcopy(args)
     try:
         res = getattr(a5, f)(*args)
@@ -124,6 +131,7 @@ def execute(a5, call, ctx, fresh_mod):
 
 
 def run_history(a5, gen, state, fresh_mod, rew, spec, ctx, repo, pyc):
+    from rv import geo
     rnd = ctx.rnd
     mode = rnd.choice(('cold', 'partial', 'warm'))
     if mode == 'cold':
@@ -140,8 +148,26 @@ def run_history(a5, gen, state, fresh_mod, rew, spec, ctx, repo, pyc):
             for _ in range(rnd.choice((2, 3))):
                 p = gen.p_frame(rnd, i, lo_, hi_)
                 g.append(('lonlat_to_cell', [[float(p[0]), float(p[1])], r]))
+            if rnd.random() < 0.4:
+                pe = geo.vec_to_ll(gen.FRAME[i][1])    # the frame point itself, after lookups on either side of it
+                g.insert(rnd.randint(1, len(g)), ('lonlat_to_cell', [[float(pe[0]), float(pe[1])], r]))
             groups.append(g)
             ctx.count('straddling_lookup_groups')
+        elif rnd.random() < 0.08:
+            # a point inside a cell, then the corners and edge points of THAT cell (points that lie on the boundary of the cell the
+            # previous call returned), then the inside point again
+            rr = rnd.randint(2, 29)
+            p0 = gen.p_uniform(rnd) if rnd.random() < 0.7 else gen.p_edge(rnd)
+            c0 = a5.lonlat_to_cell(p0, rr)
+            ring = a5.cell_to_boundary(c0, {'segments': 2, 'closed_ring': False})
+            ctr = a5.cell_to_lonlat(c0)
+            g = [('lonlat_to_cell', [[float(ctr[0]), float(ctr[1])], rr])]
+            for vtx in rnd.sample(ring, 4):
+                g.append(('lonlat_to_cell', [[float(vtx[0]), float(vtx[1])], rr]))
+                if rnd.random() < 0.5:
+                    g.append(('lonlat_to_cell', [[float(ctr[0]), float(ctr[1])], rr]))
+            groups.append(g)
+            ctx.count('boundary_point_groups')
         elif rnd.random() < 0.12:
             # a family: a structured deep cell (first / last positions of a segment, digit patterns), its ancestors at coarse
             # levels and a sibling, with geometry calls on each, executed back to back in a random order
